@@ -12,6 +12,7 @@ pub mod c14;
 pub mod c15;
 pub mod c16;
 pub mod c17;
+pub mod c20;
 pub mod common;
 
 use crate::runner::{Erased, Wrap};
@@ -32,5 +33,6 @@ pub fn all() -> Vec<Box<dyn Erased>> {
         Box::new(Wrap(c15::C15)),
         Box::new(Wrap(c16::C16)),
         Box::new(Wrap(c17::C17)),
+        Box::new(Wrap(c20::C20)),
     ]
 }
